@@ -42,6 +42,12 @@ def pinned_sources() -> dict:
 # --------------------------------------------------------------------------------------------------
 # small helpers
 # --------------------------------------------------------------------------------------------------
+def _clone(node):
+    from . import core
+
+    return core.clone(node)
+
+
 def _blocks(node: ast.AST) -> typing.Iterator[list]:
     """Every statement list below ``node`` (handlers and match cases included), innermost last."""
     for n in ast.walk(node):
@@ -394,7 +400,7 @@ def canonical_tests(fn: ast.AST) -> None:
                     class S(ast.NodeTransformer):
                         def visit_Name(self, x):  # noqa: N802
                             if isinstance(x.ctx, ast.Load) and x.id in m:
-                                return copy.deepcopy(m[x.id])
+                                return _clone(m[x.id])
                             return x
 
                     return S().visit(f.body)
@@ -707,7 +713,7 @@ def inline_temporaries(fn: ast.AST, only: typing.Optional[set] = None, sigs: typ
             class Sub(ast.NodeTransformer):
                 def visit_Name(self, n):  # noqa: N802
                     if isinstance(n.ctx, ast.Load) and n.id == x:
-                        return copy.deepcopy(v)
+                        return _clone(v)
                     return n
 
             del seq[i]
